@@ -559,7 +559,7 @@ func checkScalar(cs *h.Case, v *tref.Val) {
 	if v.T != tref.BOOL && v.T != tref.DOUBLE {
 		p.Read = 0
 		r, e := p.ReadInt(tt(v.T))
-		if e != nil || int64(r) != v.I || p.Read != len(want) {
+		if e != nil || (int64(r) != v.I && !(v.T == tref.BYTE && byte(r) == byte(v.I))) || p.Read != len(want) {
 			cs.Viol("codec:ReadInt:"+name, "value", v.String(), "got", r)
 		}
 	}
